@@ -132,3 +132,155 @@ fn sketch_header_rejects_bad_magic() {
         Err(_) => assert!(b[0..4] != SKETCH_TRACK_MAGIC, "rejected only for the magic"),
     }
 }
+
+// ---------------------------------------------------------------------------------------------
+// Whole-track clause: write_sketch_track / read_sketch_track through std::io::Cursor (real std code).
+// blake3::Hasher is stubbed (the checksum value plays no role here).
+use std::io::Cursor;
+
+pub(super) fn hasher_new_stub() -> Hasher {
+    unsafe { core::mem::zeroed() }
+}
+pub(super) fn hasher_update_stub<'a>(h: &'a mut Hasher, _d: &[u8]) -> &'a mut Hasher {
+    h
+}
+pub(super) fn hasher_finalize_stub(_h: &Hasher) -> blake3::Hash {
+    blake3::Hash::from_bytes([0u8; 32])
+}
+pub(super) fn fmt_stub(_args: core::fmt::Arguments<'_>) -> String {
+    String::new()
+}
+
+/// C22/C39: read_sketch_track on ANY 24-byte header image and ANY declared length returns (Ok or Err)
+/// without panicking - in particular `entry_count * entry_size` must not overflow.
+#[kani::proof]
+#[kani::stub(alloc::fmt::format, fmt_stub)]
+#[kani::unwind(34)]
+fn sketch_track_read_arbitrary_header() {
+    let img: [u8; SketchTrackHeader::SIZE] = kani::any();
+    let length: u64 = kani::any();
+    let mut cur = Cursor::new(img.to_vec());
+    match read_sketch_track(&mut cur, 0, length) {
+        Ok(t) => {
+            kani::cover!(true, "an empty track is accepted");
+            assert!(t.is_empty(), "no entry can be read from a header-only image");
+            assert!(img[0..4] == SKETCH_TRACK_MAGIC, "accepted only with the magic");
+        }
+        Err(_) => {
+            kani::cover!(true, "some image rejected");
+        }
+    }
+}
+
+fn any_entry_medium(frame_id: FrameId) -> SketchEntry {
+    let tf: [u8; TERM_FILTER_SIZE_MEDIUM] = kani::any();
+    let tt: [u32; TOP_TERMS_COUNT_MEDIUM] = kani::any();
+    SketchEntry {
+        frame_id,
+        simhash: kani::any(),
+        term_filter: tf.to_vec(),
+        top_terms: tt.to_vec(),
+        term_weight_sum: kani::any(),
+        flags: SketchFlags::from_bits(kani::any()),
+        length_hint: kani::any(),
+    }
+}
+
+/// Unified entry <-> Medium bytes: every field survives (complete: fixed sizes, all values).
+#[kani::proof]
+#[kani::unwind(34)]
+fn sketch_entry_medium_bytes_roundtrip() {
+    let id: FrameId = kani::any();
+    let e = any_entry_medium(id);
+    let back = SketchEntry::from_medium_bytes(id, &e.to_medium_bytes());
+    assert!(back == e, "from_medium_bytes(id, to_medium_bytes(e)) == e");
+}
+
+/// Unified entry <-> Small bytes: the fields the Small layout stores survive.
+#[kani::proof]
+#[kani::unwind(18)]
+fn sketch_entry_small_bytes_roundtrip() {
+    let id: FrameId = kani::any();
+    let tf: [u8; TERM_FILTER_SIZE_SMALL] = kani::any();
+    let tt: [u32; TOP_TERMS_COUNT_SMALL] = kani::any();
+    let e = SketchEntry {
+        frame_id: id,
+        simhash: kani::any(),
+        term_filter: tf.to_vec(),
+        top_terms: tt.to_vec(),
+        term_weight_sum: kani::any(),
+        flags: SketchFlags::from_bits(kani::any()),
+        length_hint: kani::any(),
+    };
+    let back = SketchEntry::from_small_bytes(id, &e.to_small_bytes());
+    assert!(back.frame_id == id && back.simhash == e.simhash && back.term_filter == e.term_filter && back.top_terms == e.top_terms,
+        "simhash, term filter and top terms survive the Small layout");
+}
+
+/// Track of N Medium entries with DENSE frame ids 0..N (the only shape the writer's callers produce when
+/// every frame has a sketch): written and read back identical.
+macro_rules! track_roundtrip_dense {
+    ($name:ident, $n:expr) => {
+        #[kani::proof]
+        #[kani::stub(blake3::Hasher::new, hasher_new_stub)]
+        #[kani::stub(blake3::Hasher::update, hasher_update_stub)]
+        #[kani::stub(blake3::Hasher::finalize, hasher_finalize_stub)]
+        #[kani::stub(alloc::fmt::format, fmt_stub)]
+        #[kani::unwind(70)]
+        fn $name() {
+            let mut track = SketchTrack::new(SketchVariant::Medium);
+            let mut i = 0u64;
+            while i < $n {
+                track.insert(any_entry_medium(i));
+                i += 1;
+            }
+            let mut cur = Cursor::new(Vec::<u8>::new());
+            let (offset, length, _sum) = match write_sketch_track(&mut cur, &track) {
+                Ok(v) => v,
+                Err(_) => {
+                    assert!(false, "writing to memory cannot fail");
+                    return;
+                }
+            };
+            assert!(offset == 0 && length == (SketchTrackHeader::SIZE + $n * ENTRY_SIZE_MEDIUM) as u64, "length = header + n entries");
+            match read_sketch_track(&mut cur, offset, length) {
+                Ok(back) => {
+                    assert!(back.len() == $n && back.variant == SketchVariant::Medium, "same size and variant");
+                    i = 0;
+                    while i < $n {
+                        assert!(back.get(i) == track.get(i), "entry read back identical");
+                        i += 1;
+                    }
+                }
+                Err(_) => assert!(false, "a track written by write_sketch_track must read back"),
+            }
+        }
+    };
+}
+track_roundtrip_dense!(sketch_track_roundtrip_dense_n1, 1);
+track_roundtrip_dense!(sketch_track_roundtrip_dense_n2, 2);
+
+/// Track with ONE entry under an ARBITRARY frame id: read back identical (the statement of C39).
+#[kani::proof]
+#[kani::stub(blake3::Hasher::new, hasher_new_stub)]
+#[kani::stub(blake3::Hasher::update, hasher_update_stub)]
+#[kani::stub(blake3::Hasher::finalize, hasher_finalize_stub)]
+#[kani::stub(alloc::fmt::format, fmt_stub)]
+#[kani::unwind(70)]
+fn sketch_track_roundtrip_sparse_id() {
+    let id: FrameId = kani::any();
+    let mut track = SketchTrack::new(SketchVariant::Medium);
+    track.insert(any_entry_medium(id));
+    let mut cur = Cursor::new(Vec::<u8>::new());
+    let (offset, length, _sum) = match write_sketch_track(&mut cur, &track) {
+        Ok(v) => v,
+        Err(_) => return,
+    };
+    match read_sketch_track(&mut cur, offset, length) {
+        Ok(back) => {
+            assert!(back.len() == 1, "one entry");
+            assert!(back.get(id) == track.get(id), "the entry is found under the frame id it was stored with");
+        }
+        Err(_) => assert!(false, "a track written by write_sketch_track must read back"),
+    }
+}
